@@ -22,7 +22,7 @@ RULE = (
     "replace a capacity literal by a constant expression of equal value; renumber fields by a strictly increasing map into "
     "1..255; optionally re-render with different indentation, comments, blank lines, semicolons (none/all/mixed), hex "
     "literals, no trailing newline. Metamorphic oracle: Python encode() of the mapped value under the rewritten schema == "
-    "bytes under the original schema (and == reference); on a sample also the C encoder. evaluations = (message, value) "
+    "bytes under the original schema (and == reference); on a 1-in-5 sample also the C encoder of the rewritten schema in a drawn build (standard, -O little/both/big, -O both with -DBP_BIG_ENDIAN). evaluations = (message, value) "
     "pairs compared. Non-trivial: >= 2 different rewrite kinds applied and the message has >= 3 leaves; distinct by (original "
     "digest, rewritten digest, message, value)."
 )
@@ -45,6 +45,7 @@ class Case:
     rand: Dict[int, List[Any]]
     excluded: Dict[str, int] = field(default_factory=dict)
     with_c: bool = False
+    c_build: str = "std"
 
 
 @st.composite
@@ -57,7 +58,7 @@ def strategy_(draw: Any) -> Case:
             continue
         rand[i] = [draw(S.values(m)) for _ in range(2)]
     unit2, msgs2, applied, style, excluded = rewrites.apply_sequence(draw, unit, msgs)
-    return Case(unit, msgs, unit2, msgs2, applied, style, rand, excluded, draw(st.integers(0, 9)) == 0)
+    return Case(unit, msgs, unit2, msgs2, applied, style, rand, excluded, draw(st.integers(0, 4)) == 0, draw(st.sampled_from(["std", "std", "O-both", "O-both-BE", "O-big", "O-little"])))
 
 
 def describe(c: Case) -> Any:
@@ -130,15 +131,24 @@ def _c_sample(c: Case, cu2: gen.Compiled, stats: Stats) -> None:
     msgs2 = [c.msgs2[i] for i in idx]
     if not msgs2:
         return
+    from ..evolve import ext_arrays
+
+    build = c.c_build
+    if build != "std" and (any(m.ext for m in unit_messages(c.unit2)) or ext_arrays(c.unit2)):
+        build = "std"  # optimization mode needs a traditional schema
+    stats.count("c_build:" + build)
     try:
-        cdir = cu2.render_all("c")
-        drv = cexec.CDriver(c.unit2, cdir, msgs2, cexec.CConfig("gcc", "-O1"), with_json=False, workdir=cu2.outdir("drv"))
+        if build == "std":
+            cdir = cu2.render_all("c")
+        else:
+            cdir = cu2.render_all("c", tag="c_" + build, optimize=True, endian={"O-both": "both", "O-both-BE": "both", "O-big": "big", "O-little": "little"}[build])
+        drv = cexec.CDriver(c.unit2, cdir, msgs2, cexec.CConfig("gcc", "-O1", big_endian=(build == "O-both-BE")), with_json=False, workdir=cu2.outdir("drv"))
     except cexec.CBuildError as e:
         raise Violation(f"rewritten schema's C does not build (rewrites {c.applied}): {e}", signature="cbuild")
     ops, meta = [], []
     for k, i in enumerate(idx):
         m1, m2 = c.msgs[i], c.msgs2[i]
-        for v1 in c.rand[i]:
+        for v1 in [v for _, v in S.basis_values(m1, 0)] + list(c.rand[i]):
             leafvals = [ref.get_path(v1, lf.path) for lf in ref.leaves(m1)]
             v2 = S.build_value(m2, leafvals)
             ops.append(cexec.op_encode(k, m2, v2))
